@@ -399,7 +399,7 @@ func (eng *Engine) translate(unit, mode string, fn *ssa.Function, fc *FuncContra
 			return TV{}, false
 		}
 		for k, c := range fc.Ensures {
-			t := fr.evalClause(c, penv, "ensures")
+			t := fr.evalGoal(c, penv, "ensures")
 			label := c.Label
 			if label == "" {
 				label = fmt.Sprint(k)
@@ -440,9 +440,7 @@ func (fr *Frame) frameObligations(r retRec, ri int, entry *State) {
 		}
 	}
 	if allHeaps {
-		vc.addObl(&Obligation{Name: fmt.Sprintf("%s#frame.heap", vc.unit), Kind: "frame", Props: fc.Props, Guard: "true", Goal: "false",
-			Src: "the body calls code without a contract (all heaps havoc'ed) but the contract has no `modifies heap`/`modifies all`"})
-		return
+		return // reported at the havoc'ing call site (path-sensitive)
 	}
 	if len(written) == 0 {
 		return
@@ -599,7 +597,7 @@ func (eng *Engine) VerifyLemma(name string) (res *UnitResult) {
 	pkg := eng.pkgByPath(l.Pkg, nil)
 	vc := newVC(eng, res.Unit, l.Mode, pkg)
 	vc.svSorts = map[string]string{}
-	fr := &Frame{vc: vc, vals: map[ssa.Value]string{}, isTop: true, writes: map[int]*writeSet{}, callSeq: map[string]int{}}
+	fr := eng.newFrame(vc, nil, nil)
 	st := vc.rootState()
 	for _, u := range l.Uses {
 		ul := eng.cs.Lemmas[u]
@@ -612,8 +610,8 @@ func (eng *Engine) VerifyLemma(name string) (res *UnitResult) {
 			vc.trust("axiom %s: %s", u, strings.TrimSpace(ul.C.Src))
 		}
 	}
-	env := &Env{vc: vc, names: map[string]TV{}, bound: map[string]TV{}, st: st, old: st, pkg: pkg}
-	goal := fr.evalClause(l.C, env, "lemma")
+	env := &Env{vc: vc, fr: fr, names: map[string]TV{}, bound: map[string]TV{}, st: st, old: st, pkg: pkg}
+	goal := fr.evalGoal(l.C, env, "lemma")
 	vc.addObl(&Obligation{Name: res.Unit, Kind: "lemma", Props: l.Props, Guard: "true", Goal: goal, Src: l.C.Src, File: l.C.File, Line: l.C.Line})
 	res.vc = vc
 	res.Obls = vc.obls
